@@ -405,7 +405,9 @@ def run(ctx: Context) -> None:
                 g_ = v_.generators[0]
                 k_ = norm_text(g_.target)
                 it_ = norm_text(dflow.resolve(g_.iter))
-                ok_ = norm_text(v_.key) == k_ and norm_text(v_.value) == f"{dl.params[1]}[{k_}]" and it_ in (f"{dl.params[0]}.{member}.keys()", f"{dl.params[0]}.{member}")
+                ok_ = norm_text(v_.key) == k_ and norm_text(v_.value) == f"{dl.params[1]}[{k_}]" and it_ in (
+                    f"{dl.params[0]}.{member}.keys()", f"{dl.params[0]}.{member}", f"list({dl.params[0]}.{member})", f"tuple({dl.params[0]}.{member})",
+                    f"list({dl.params[0]}.{member}.keys())", f"tuple({dl.params[0]}.{member}.keys())")
                 how_ = norm_text(v_)[:90]
             ctx.check('R09.10', ok_, f"the rebuilt dataset has every one of the example's {member}, in the example's order, each read from the new dataset under its own name", dl, mk[0],
                       construct=f"{kw_} = {how_}")
